@@ -64,10 +64,12 @@ def _unpad_openssh(data):
     # At the moment, this is only used for unpadding private keys on disk. This
     # really ought to be made constant time (possibly by upstreaming this logic
     # into pyca/cryptography).
+    if len(data) == 0:
+        raise SSHException("Invalid key")
     padding_length = data[-1]
     if 0x20 <= padding_length < 0x7F:
         return data  # no padding, last byte part comment (printable ascii)
-    if padding_length > 15:
+    if padding_length > 15 or padding_length > len(data):
         raise SSHException("Invalid key")
     for i in range(padding_length):
         if data[i - padding_length] != i + 1:
@@ -634,7 +636,7 @@ class PKey:
             else:
                 raise SSHException(
                     "unknown cipher `{}` used in private key file".format(
-                        cipher.decode("utf-8")
+                        cipher.decode("utf-8", "replace")
                     )
                 )
             # Encrypted private key.
@@ -649,15 +651,22 @@ class PKey:
             salt, rounds = self._uint32_cstruct_unpack(kdf_options, "su")
 
             # run bcrypt kdf to derive key and iv/nonce (32 + 16 bytes)
-            key_iv = bcrypt.kdf(
-                b(password),
-                b(salt),
-                48,
-                rounds,
-                # We can't control how many rounds are on disk, so no sense
-                # warning about it.
-                ignore_few_rounds=True,
-            )
+            try:
+                key_iv = bcrypt.kdf(
+                    b(password),
+                    b(salt),
+                    48,
+                    rounds,
+                    # We can't control how many rounds are on disk, so no
+                    # sense warning about it.
+                    ignore_few_rounds=True,
+                )
+            except ValueError as e:
+                raise SSHException(
+                    "invalid bcrypt parameters in private key file: {}".format(
+                        e
+                    )
+                )
             key = key_iv[:32]
             iv = key_iv[32:]
 
@@ -665,8 +674,13 @@ class PKey:
             decryptor = Cipher(
                 algorithms.AES(key), mode(iv), default_backend()
             ).decryptor()
-            decrypted_privkey = decryptor.update(privkey_blob)
-            decrypted_privkey += decryptor.finalize()
+            try:
+                decrypted_privkey = decryptor.update(privkey_blob)
+                decrypted_privkey += decryptor.finalize()
+            except ValueError as e:
+                raise SSHException(
+                    "corrupt private key file: {}".format(e)
+                )
         elif cipher == b("none") and kdfname == b("none"):
             # Unencrypted private key
             decrypted_privkey = privkey_blob
